@@ -240,3 +240,150 @@ func runC01_15(c *core.Ctx) {
 		}
 	}
 }
+
+func init() {
+	register(&core.Rule{ID: "C01.19", Prop: "C01", MinSites: 4,
+		Desc: "what is taken from the read window leaves it: in conn.Read, Next and WriteTo every use of c.buffer as a source (copy out of it, a view of it handed back, a Write of it) is followed on every path to a return by an advance c.buffer = c.buffer[k:] (or resetBuffer); in conn.Discard every return has passed such an advance or a reset unless it is on the edge on which the inbound ring alone covered the request",
+		Run:  runC01_19})
+}
+
+func runC01_19(c *core.Ctx) {
+	a := inAnchors(c)
+	if a == nil {
+		return
+	}
+	winF := a.v.buffer
+	isWindow := func(f *fn, e ast.Expr) bool {
+		e = ast.Unparen(e)
+		if flow.FieldOf(f.Info, e) == winF {
+			return true
+		}
+		if se, ok := e.(*ast.SliceExpr); ok && flow.FieldOf(f.Info, se.X) == winF {
+			return true
+		}
+		return false
+	}
+	isAdvance := func(f *fn, n ast.Node) bool {
+		if as, ok := n.(*ast.AssignStmt); ok {
+			for k, l := range as.Lhs {
+				if flow.FieldOf(f.Info, l) == winF && len(as.Rhs) == len(as.Lhs) {
+					if se, ok := ast.Unparen(as.Rhs[k]).(*ast.SliceExpr); ok && flow.FieldOf(f.Info, se.X) == winF && se.Low != nil {
+						return true
+					}
+				}
+			}
+		}
+		for _, call := range flow.Calls(n) {
+			if flow.IsCall(f.Info, call, a.resetBuffer) {
+				return true
+			}
+		}
+		return false
+	}
+	for _, name := range []string{"conn.Read", "conn.Next", "conn.WriteTo"} {
+		f := getFn(c, "", name)
+		if f == nil {
+			continue
+		}
+		takes := func(n ast.Node) bool {
+			if isAdvance(f, n) {
+				return false
+			}
+			for _, call := range flow.Calls(n) {
+				if id, ok := call.Fun.(*ast.Ident); ok && id.Name == "copy" && len(call.Args) == 2 && isWindow(f, call.Args[1]) {
+					return true
+				}
+				if sel, ok := ast.Unparen(call.Fun).(*ast.SelectorExpr); ok && sel.Sel.Name == "Write" && len(call.Args) == 1 && isWindow(f, call.Args[0]) {
+					return true
+				}
+			}
+			if as, ok := n.(*ast.AssignStmt); ok && len(as.Lhs) == len(as.Rhs) {
+				for k, r := range as.Rhs {
+					if se, ok := ast.Unparen(r).(*ast.SliceExpr); ok && flow.FieldOf(f.Info, se.X) == winF && flow.FieldOf(f.Info, as.Lhs[k]) != winF {
+						return true // buf = c.buffer[:n]
+					}
+				}
+			}
+			return false
+		}
+		au := &flow.Auto{Start: 0}
+		au.Node = func(b *flow.Block, i int, n ast.Node, s int) int {
+			if takes(n) {
+				return 1
+			}
+			if isAdvance(f, n) {
+				return 0
+			}
+			return s
+		}
+		sol := f.Graph().Run(au)
+		k, sawTake := 0, false
+		ast.Inspect(f.Decl.Body, func(n ast.Node) bool {
+			if st, ok := n.(ast.Stmt); ok && takes(st) {
+				sawTake = true
+			}
+			return true
+		})
+		sol.AtExit(func(b *flow.Block, _ uint64) {
+			k++
+			pending := sol.Out(b)&(1<<1) != 0
+			c.Check(!pending, f.Name, "read window advanced before return #"+itoa(k), b.Return.Pos(), "every take from c.buffer is followed by c.buffer = c.buffer[k:]",
+				nameOf(f.Obj)+" can return after handing out bytes of c.buffer without moving the window past them: the same bytes are delivered again by the next Read/Next/Peek – the handler sees a duplicate")
+		})
+		if !sawTake {
+			c.Violate(f.Name, "uses of the read window", f.Decl.Pos(), nameOf(f.Obj)+" no longer takes anything from c.buffer: the rule lost its subject")
+		}
+	}
+	if f := getFn(c, "", "conn.Discard"); f != nil {
+		const (
+			fAdv = 1 << iota
+			fRingOnly
+		)
+		p := &flow.Problem{Must: true}
+		p.Node = func(b *flow.Block, i int, n ast.Node, in uint64) uint64 {
+			if isAdvance(f, n) {
+				in |= fAdv
+			}
+			return in
+		}
+		p.Edge = func(e *flow.Edge, in uint64) uint64 {
+			if e.Cond == nil || e.Tag != nil {
+				return in
+			}
+			// discarded < inBufferLen: the ring alone covered what was asked for
+			if x, y, op, ok := flow.Cmp(e.Cond); ok {
+				xo, isX := flow.ObjOf(f.Info, x).(*types.Var)
+				yo, isY := flow.ObjOf(f.Info, y).(*types.Var)
+				fromDiscard := func(v *types.Var) bool {
+					found := false
+					ast.Inspect(f.Decl.Body, func(n ast.Node) bool {
+						if as, ok := n.(*ast.AssignStmt); ok && len(as.Rhs) == 1 {
+							if call, ok := ast.Unparen(as.Rhs[0]).(*ast.CallExpr); ok {
+								if cf := flow.CalleeFunc(f.Info, call); cf != nil && nameOf(cf) == "Discard" {
+									for _, l := range as.Lhs {
+										if flow.ObjOf(f.Info, l) == types.Object(v) {
+											found = true
+										}
+									}
+								}
+							}
+						}
+						return true
+					})
+					return found
+				}
+				if isX && isY && !xo.IsField() && !yo.IsField() && (fromDiscard(xo) || fromDiscard(yo)) && ((op == token.LSS && e.Sense) || (op == token.GEQ && !e.Sense) || (op == token.GTR && e.Sense) || (op == token.LEQ && !e.Sense)) {
+					in |= fRingOnly
+				}
+			}
+			return in
+		}
+		sol := f.Graph().Solve(p)
+		k := 0
+		sol.AtExit(func(b *flow.Block, facts uint64) {
+			k++
+			c.Check(facts&(fAdv|fRingOnly) != 0, f.Name, "read window advanced before return #"+itoa(k), b.Return.Pos(), "c.buffer advanced or reset (or the ring alone covered the request)",
+				"Discard can report bytes as discarded on a path that neither advanced nor reset c.buffer: the bytes it claims to have dropped are delivered again")
+		})
+	}
+}
